@@ -132,6 +132,36 @@ func c03Run(j *rt.Job, seed uint64, r *rt.Rec) {
 				r.Distinct(cs.Seed, cs.MLen, cs.Fill)
 			}
 			r.Observe("length_sweep_windows", fmt.Sprintf("[%05d,%05d)", lo, lo+20))
+			// nil message, lengths around 2^16 and 2^20, and a message with spare capacity behind it
+			if why := c03One(d, nil); why != "" {
+				r.Violate("C03/roundtrip", why+" (nil message)", c03Case{"c03", rt.Hex(s[:]), "", 0, 0}, "", "")
+				return
+			}
+			for _, l := range []int{65535, 65536, 65537, 1 << 20, 1<<20 + 1} {
+				if j.Int("batch")%4 != 0 && l >= 1<<20 {
+					continue
+				}
+				cs := c03Case{"c03", rt.Hex(s[:]), "", l, l & 0xFF}
+				r.Eval(1)
+				if why := c03One(d, cs.msg()); why != "" {
+					r.Violate("C03/roundtrip", why+fmt.Sprintf(" (message length %d)", l), cs, "", "")
+					return
+				}
+				r.Count("roundtrips_ok", 1)
+				r.Observe("message_lengths", fmt.Sprintf("%07d", l))
+			}
+			buf := rng.Bytes(100)
+			copy(buf[60:], "CANARY-CANARY-CANARY-CANARY-CANARY-CANAR")
+			m := buf[:60:100]
+			why := c03One(d, m)
+			if why == "" && string(buf[60:]) != "CANARY-CANARY-CANARY-CANARY-CANARY-CANAR" {
+				why = "Sign/Seal wrote into the spare capacity behind the caller's message"
+			}
+			if why != "" {
+				r.Violate("C03/caller-buffer", why, c03Case{"c03", rt.Hex(s[:]), rt.Hex(m), 60, -1}, "", "")
+				return
+			}
+			r.Count("spare_capacity_checks", 1)
 		}
 		for m := 0; m < 12; m++ {
 			var cs c03Case
